@@ -13,6 +13,7 @@ import itertools
 import warnings
 
 import numpy as np
+import pandas as pd
 import xarray as xr
 
 from .. import data as D
@@ -24,7 +25,7 @@ LEVEL = "model_checking"
 TECHNIQUE = "BFS over the graph of meaning-preserving re-presentations of one data set; every node fitted with every model class on the real code and compared (label-keyed) with the base node"
 RULE = (
     "states = (presentation node, model class) pairs fitted; a node is a tuple (dim order, lat permutation, lon permutation, "
-    "sample permutation, feature split into Dataset/list, internal names) with at most `depth` non-default coordinates; "
+    "sample permutation, feature split into Dataset/list, internal names, samples as one or two dimensions) with at most `depth` non-default coordinates; "
     "transitions = lattice edges between visited nodes (one coordinate changed) times model classes; every fitted node is "
     "validated against the base node's canonical form"
 )
@@ -43,8 +44,8 @@ PLON = [(0, 1), (1, 0)]
 PSAM = [None, "reverse", "shuffle"]
 SPLITS = [None] + [[k, i] for k in ("ds", "list") for i in range(3)]  # lat i alone vs the two others
 NAMES = [("sample", "feature"), ("s", "f"), ("obs", "cell")]
-DEFAULT = dict(order=0, plat=0, plon=0, psam=0, split=0, names=0)
-DOMAIN = dict(order=len(ORDERS), plat=len(PLAT), plon=len(PLON), psam=len(PSAM), split=len(SPLITS), names=len(NAMES))
+DEFAULT = dict(order=0, plat=0, plon=0, psam=0, split=0, names=0, sdims=0)
+DOMAIN = dict(order=len(ORDERS), plat=len(PLAT), plon=len(PLON), psam=len(PSAM), split=len(SPLITS), names=len(NAMES), sdims=2)
 
 MODELS = ["EOF", "ComplexEOF", "HilbertEOF", "ExtendedEOF", "SparsePCA", "POP", "OPA", "EOFRotator", "CPCCA", "MCA", "MCARotator", "multiCCA", "EOFBootstrapper"]
 NO_SAMPLE_PERM = {"HilbertEOF", "ExtendedEOF", "POP", "OPA", "EOFBootstrapper"}
@@ -66,7 +67,7 @@ def nodes(depth):
 
 
 def ndepth(n):
-    return sum(1 for k in DEFAULT if n[k] != 0)
+    return sum(1 for k in DEFAULT if n.get(k, 0) != 0)
 
 
 def base_data(seed, spec, cplx):
@@ -85,22 +86,50 @@ def sample_perm(kind, seed):
     return np.random.default_rng([seed, 99]).permutation(N)
 
 
+def _two_sample_dims(o, order, flip):
+    """Present the samples as two dimensions: time label i -> (t = i // 3, r = i % 3). `order` is the dimension order with
+    'time' standing for the pair, stored as (t, r) or, if `flip`, as (r, t)."""
+    tl = o.time.values
+    idx = pd.MultiIndex.from_arrays([tl // 3, tl % 3], names=("t", "r"))
+    o = o.drop_vars("time").assign_coords(xr.Coordinates.from_pandas_multiindex(idx, "time")).unstack("time")
+    pair = ("r", "t") if flip else ("t", "r")
+    dims = []
+    for d in order:
+        dims += list(pair) if d == "time" else [d]
+    return o.transpose(*[d for d in dims if d in o.dims])
+
+
 def present(x, y, node, seed):
     ps = sample_perm(PSAM[node["psam"]], seed)
     x = x.isel(time=ps, lat=list(PLAT[node["plat"]]), lon=list(PLON[node["plon"]]))
     y = y.isel(time=ps)
     order = ORDERS[node["order"]]
     sp = SPLITS[node["split"]]
+    two = node.get("sdims", 0) == 1
+    if two:
+        y = _two_sample_dims(y, ("time", "station"), False)
     if sp is None:
-        return x.transpose(*order), y
+        return (_two_sample_dims(x, order, False) if two else x.transpose(*order)), y
     kind, i = sp
     lat_i = float(np.sort(x.lat.values)[i])
-    a = x.sel(lat=[lat_i]).transpose(*order)
-    b = x.sel(lat=[l for l in x.lat.values if l != lat_i]).transpose(*order)
+    a = x.sel(lat=[lat_i])
+    b = x.sel(lat=[l for l in x.lat.values if l != lat_i])
     if kind == "ds":
         # two variables on the shared (time, lat, lon) grid: each is NaN (i.e. fully missing) outside its own latitudes
-        return xr.Dataset({"v0": a.rename("v0"), "v1": b.rename("v1")}).transpose(*order), y
-    return [a, b.rename("field_b")], y
+        ds = xr.Dataset({"v0": a.rename("v0"), "v1": b.rename("v1")})
+        return (_two_sample_dims(ds, order, False) if two else ds.transpose(*order)), y
+    if two:  # the two list items store the shared sample dimensions in different orders
+        return [_two_sample_dims(a, order, False), _two_sample_dims(b.rename("field_b"), order, True)], y
+    return [a.transpose(*order), b.rename("field_b").transpose(*order)], y
+
+
+def _samples_back(sc):
+    """Scores over (t, r) -> scores over the base 'time' label 3 t + r."""
+    if "t" not in sc.dims:
+        return sc
+    st = sc.stack(time=("t", "r"))
+    lab = np.asarray(st["t"].values) * 3 + np.asarray(st["r"].values)
+    return st.drop_vars(["time", "t", "r"]).assign_coords(time=lab)
 
 
 def canon_field(obj):
@@ -155,12 +184,13 @@ def fit_and_canon(model, node, seed, spec):
     x, y = base_data(seed, spec, cplx)
     px, py = present(x, y, node, seed)
     m, aux = build(model, node["names"])
+    dim = ("t", "r") if node.get("sdims", 0) == 1 else "time"
     if model in CROSS:
-        m.fit(px, py, dim="time")
+        m.fit(px, py, dim=dim)
     elif model == "multiCCA":
-        m.fit([px, py], dim="time")
+        m.fit([px, py], dim=dim)
     else:
-        m.fit(px, dim="time")
+        m.fit(px, dim=dim)
     obj = m
     if aux is not None:
         aux.fit(m)
@@ -170,16 +200,16 @@ def fit_and_canon(model, node, seed, spec):
         cx, cy = obj.components()
         sx, sy = obj.scores()
         out["components_x"], out["components_y"] = canon_field(cx), cy.rename(None)
-        out["scores_x"], out["scores_y"] = sx.rename(None), sy.rename(None)
+        out["scores_x"], out["scores_y"] = _samples_back(sx.rename(None)), _samples_back(sy.rename(None))
         out["spectrum"] = obj.squared_covariance_fraction().rename(None)
     elif model == "multiCCA":
         c = obj.components()
         s = obj.scores()
         out["components_x"], out["components_y"] = canon_field(c[0]), c[1].rename(None)
-        out["scores_x"], out["scores_y"] = s[0].rename(None), s[1].rename(None)
+        out["scores_x"], out["scores_y"] = _samples_back(s[0].rename(None)), _samples_back(s[1].rename(None))
     else:
         out["components"] = canon_field(obj.components())
-        out["scores"] = obj.scores().rename(None)
+        out["scores"] = _samples_back(obj.scores().rename(None))
         if model == "POP":
             out["spectrum"] = obj.eigenvalues().rename(None)
         elif model == "OPA":
@@ -219,7 +249,7 @@ def cases(tier, seed):
 
 
 def _edge_features(node):
-    return dict(changed="+".join(k for k in DEFAULT if node[k] != 0) or "none", split=(SPLITS[node["split"]] or ["none"])[0], names_default=node["names"] == 0)
+    return dict(changed="+".join(k for k in DEFAULT if node.get(k, 0) != 0) or "none", split=(SPLITS[node["split"]] or ["none"])[0], names_default=node["names"] == 0)
 
 
 def run_case(case, seed):
